@@ -1,6 +1,56 @@
 /* VERIF-UNIT
 {
- "name": "rsz_blocks_to_move",
+ "name": "rsz_btm_same_desc",
+ "props": ["C08", "C20"],
+ "level": "P",
+ "tier": "wip",
+ "harness": "h_blocks_to_move",
+ "replace": ["mark_table_blocks", "reserve_sparse_super2_last_group", "mark_fs_metablock"],
+ "includes": ["resize"],
+ "loop_contracts": true,
+ "defines": ["SCEN=1"],
+ "unwind": 12,
+ "unwind_reason": "all nine loops of blocks_to_move are cut by in-place loop contracts (VERIF_INV_BTM_*: invariant + decreases); the bound serves the harness' initialisation loops over the 6 ghost sets and the DFCC library loops over assigns clauses of up to 9 targets (a smaller bound silently cuts those paths: the REACH canaries guard against that)",
+ "cbmc_flags": ["--object-bits", "12"],
+ "backend": "cadical",
+ "functions": ["resize/resize2fs.c:blocks_to_move"],
+ "assumes": ["big translation unit: no contract is enforced; the real static function is called directly, the statement is made by harness CHECKs and by the PRECONDITIONS of the replaced static callees (call-site obligations) over the ghost monitor of rsz_common.h: bitmaps observed at ONE arbitrary ghost block, descriptors at ONE arbitrary ghost group",
+             "mark_table_blocks, reserve_sparse_super2_last_group, mark_fs_metablock are replaced by contracts: mark_table_blocks(old_fs, meta) makes the ghost block a member of meta exactly when it is metadata of the old geometry (an input); reserve_sparse_super2_last_group does what unit rsz_ss2_reserve proves (blocks of the new last group's backup run, an input predicate, become reserved and in use; nothing else is reserved or queued for moving; it may fail); mark_fs_metablock(blk) reserves blk, marks it in use, may queue it for moving only when a file uses it, may zero table locations",
+             "ext2fs_allocate_group_table is the ghost allocator of rsz_common.h (hands out only blocks free in the bitmap it is given, may fail); ext2fs_allocate_block_bitmap hands out the three bitmaps in call order and may fail; ext2fs_bg_has_super answers by the format (specs/spec_pow.h)",
+             "group geometry is abstract: ext2fs_group_of_blk2 / ext2fs_group_first_block2 only satisfy 'the blocks of a group are consecutive and groups ascend' at the ghost block (no symbolic product / division); the first block of group i in the descriptor loops is whatever the code accumulates",
+             "scenario split by the descriptor area (one unit each, together exhaustive): rsz_btm_same_desc = same descriptor size and same number of descriptor + reserved GDT blocks (any size change); rsz_btm_shrink_desc = fewer such blocks; rsz_btm_grow_desc = more such blocks or a descriptor size change",
+             "configuration: 4 KiB blocks, 64-byte descriptors in the new filesystem (descriptors per block = 64, a constant), no bigalloc (cluster ratio 1); old descriptor size 32 or 64; every feature flag otherwise arbitrary; block counts < 2^48"],
+ "native": false
+}
+*/
+/* VERIF-UNIT
+{
+ "name": "rsz_btm_shrink_desc",
+ "props": ["C08", "C20"],
+ "level": "P",
+ "tier": "wip",
+ "harness": "h_blocks_to_move",
+ "replace": ["mark_table_blocks", "reserve_sparse_super2_last_group", "mark_fs_metablock"],
+ "includes": ["resize"],
+ "loop_contracts": true,
+ "defines": ["SCEN=2"],
+ "unwind": 12,
+ "unwind_reason": "all nine loops of blocks_to_move are cut by in-place loop contracts (VERIF_INV_BTM_*: invariant + decreases); the bound serves the harness' initialisation loops over the 6 ghost sets and the DFCC library loops over assigns clauses of up to 9 targets (a smaller bound silently cuts those paths: the REACH canaries guard against that)",
+ "cbmc_flags": ["--object-bits", "12"],
+ "backend": "cadical",
+ "functions": ["resize/resize2fs.c:blocks_to_move"],
+ "assumes": ["big translation unit: no contract is enforced; the real static function is called directly, the statement is made by harness CHECKs and by the PRECONDITIONS of the replaced static callees (call-site obligations) over the ghost monitor of rsz_common.h: bitmaps observed at ONE arbitrary ghost block, descriptors at ONE arbitrary ghost group",
+             "mark_table_blocks, reserve_sparse_super2_last_group, mark_fs_metablock are replaced by contracts: mark_table_blocks(old_fs, meta) makes the ghost block a member of meta exactly when it is metadata of the old geometry (an input); reserve_sparse_super2_last_group does what unit rsz_ss2_reserve proves (blocks of the new last group's backup run, an input predicate, become reserved and in use; nothing else is reserved or queued for moving; it may fail); mark_fs_metablock(blk) reserves blk, marks it in use, may queue it for moving only when a file uses it, may zero table locations",
+             "ext2fs_allocate_group_table is the ghost allocator of rsz_common.h (hands out only blocks free in the bitmap it is given, may fail); ext2fs_allocate_block_bitmap hands out the three bitmaps in call order and may fail; ext2fs_bg_has_super answers by the format (specs/spec_pow.h)",
+             "group geometry is abstract: ext2fs_group_of_blk2 / ext2fs_group_first_block2 only satisfy 'the blocks of a group are consecutive and groups ascend' at the ghost block (no symbolic product / division); the first block of group i in the descriptor loops is whatever the code accumulates",
+             "scenario split by the descriptor area (one unit each, together exhaustive): rsz_btm_same_desc = same descriptor size and same number of descriptor + reserved GDT blocks (any size change); rsz_btm_shrink_desc = fewer such blocks; rsz_btm_grow_desc = more such blocks or a descriptor size change",
+             "configuration: 4 KiB blocks, 64-byte descriptors in the new filesystem (descriptors per block = 64, a constant), no bigalloc (cluster ratio 1); old descriptor size 32 or 64; every feature flag otherwise arbitrary; block counts < 2^48"],
+ "native": false
+}
+*/
+/* VERIF-UNIT
+{
+ "name": "rsz_btm_grow_desc",
  "props": ["C08", "C20"],
  "level": "P",
  "tier": "wip",
@@ -9,8 +59,8 @@
  "includes": ["resize"],
  "loop_contracts": true,
  "defines": ["SCEN=3"],
- "unwind": 9,
- "unwind_reason": "all nine loops of blocks_to_move are cut by in-place loop contracts (VERIF_INV_BTM_*: invariant + decreases); the bound only serves the harness' initialisation loops over the 6 ghost sets and instrumentation loops",
+ "unwind": 12,
+ "unwind_reason": "all nine loops of blocks_to_move are cut by in-place loop contracts (VERIF_INV_BTM_*: invariant + decreases); the bound serves the harness' initialisation loops over the 6 ghost sets and the DFCC library loops over assigns clauses of up to 9 targets (a smaller bound silently cuts those paths: the REACH canaries guard against that)",
  "cbmc_flags": ["--object-bits", "12"],
  "backend": "cadical",
  "functions": ["resize/resize2fs.c:blocks_to_move"],
@@ -18,6 +68,7 @@
              "mark_table_blocks, reserve_sparse_super2_last_group, mark_fs_metablock are replaced by contracts: mark_table_blocks(old_fs, meta) makes the ghost block a member of meta exactly when it is metadata of the old geometry (an input); reserve_sparse_super2_last_group does what unit rsz_ss2_reserve proves (blocks of the new last group's backup run, an input predicate, become reserved and in use; nothing else is reserved or queued for moving; it may fail); mark_fs_metablock(blk) reserves blk, marks it in use, may queue it for moving only when a file uses it, may zero table locations",
              "ext2fs_allocate_group_table is the ghost allocator of rsz_common.h (hands out only blocks free in the bitmap it is given, may fail); ext2fs_allocate_block_bitmap hands out the three bitmaps in call order and may fail; ext2fs_bg_has_super answers by the format (specs/spec_pow.h)",
              "group geometry is abstract: ext2fs_group_of_blk2 / ext2fs_group_first_block2 only satisfy 'the blocks of a group are consecutive and groups ascend' at the ghost block (no symbolic product / division); the first block of group i in the descriptor loops is whatever the code accumulates",
+             "scenario split by the descriptor area (one unit each, together exhaustive): rsz_btm_same_desc = same descriptor size and same number of descriptor + reserved GDT blocks (any size change); rsz_btm_shrink_desc = fewer such blocks; rsz_btm_grow_desc = more such blocks or a descriptor size change",
              "configuration: 4 KiB blocks, 64-byte descriptors in the new filesystem (descriptors per block = 64, a constant), no bigalloc (cluster ratio 1); old descriptor size 32 or 64; every feature flag otherwise arbitrary; block counts < 2^48"],
  "native": false
 }
@@ -70,6 +121,7 @@ static struct {
 #define PIN_COMMON \
 	__CPROVER_loop_invariant(G.bit[BM_OLD] == S.O0 && G.bit[BM_META] == S.b_old_meta && G.n_mtb == 1 && G.agt_bad_bmap == 0 && G.nalloc == 2) \
 	__CPROVER_loop_invariant(G.loc[1][T_BB] == __CPROVER_loop_entry(G.loc[1][T_BB]) && G.loc[1][T_IB] == __CPROVER_loop_entry(G.loc[1][T_IB]) && G.loc[1][T_IT] == __CPROVER_loop_entry(G.loc[1][T_IT])) \
+	__CPROVER_loop_invariant(G.bit[BM_NEW] <= 1 && G.bit[BM_RESERVE] <= 1 && G.bit[BM_MOVE] <= 1) \
 	__CPROVER_loop_invariant(G.bit[BM_RESERVE] >= __CPROVER_loop_entry(G.bit[BM_RESERVE]) && G.bit[BM_MOVE] >= __CPROVER_loop_entry(G.bit[BM_MOVE])) \
 	__CPROVER_loop_invariant(G.bit[BM_MOVE] == __CPROVER_loop_entry(G.bit[BM_MOVE]) || MOVE_IF_FILE)
 #define PIN_BEFORE_RSV \
@@ -78,7 +130,7 @@ static struct {
 #define PIN_AFTER_RSV \
 	PIN_COMMON \
 	__CPROVER_loop_invariant(G.n_rsv_ss2 == 1 && G.agt_rsv_early == 0 && G.agt_map_late == 0 && G.n_agt_map == __CPROVER_loop_entry(G.n_agt_map)) \
-	__CPROVER_loop_invariant(!S.b_in_ss2run || G.rsv_failed || (G.bit[BM_RESERVE] == 1 && G.agt_took_b_rsv == 0))
+	__CPROVER_loop_invariant(G.rsv_failed == 0 && (!S.b_in_ss2run || (G.bit[BM_RESERVE] == 1 && G.agt_took_b_rsv == 0)))
 
 #define VERIF_INV_BTM_SHRINK_GROUPS \
 	__CPROVER_assigns(g, retval, G) \
@@ -101,13 +153,13 @@ static struct {
 	__CPROVER_assigns(i, group_blk, group_end, blk, cluster_freed, G, rfs->needed_blocks) \
 	__CPROVER_loop_invariant(i <= max_groups) \
 	PIN_AFTER_RSV \
-	__CPROVER_loop_invariant(G.n_agt == __CPROVER_loop_entry(G.n_agt) && G.n_mfm == 0) \
+	__CPROVER_loop_invariant(G.n_agt == __CPROVER_loop_entry(G.n_agt) && G.n_agt_rsv == __CPROVER_loop_entry(G.n_agt_rsv) && G.n_mfm == 0) \
 	__CPROVER_decreases(max_groups - i)
 #define VERIF_INV_BTM_FREE_BLOCKS \
 	__CPROVER_assigns(blk, cluster_freed, G, rfs->needed_blocks) \
 	__CPROVER_loop_invariant(1) \
 	PIN_AFTER_RSV \
-	__CPROVER_loop_invariant(G.n_agt == __CPROVER_loop_entry(G.n_agt) && G.n_mfm == 0) \
+	__CPROVER_loop_invariant(G.n_agt == __CPROVER_loop_entry(G.n_agt) && G.n_agt_rsv == __CPROVER_loop_entry(G.n_agt_rsv) && G.n_mfm == 0) \
 	__CPROVER_decreases(blk < group_end ? group_end - blk : 0)
 
 #define VERIF_INV_BTM_META_GROUPS \
@@ -169,6 +221,7 @@ static errcode_t reserve_sparse_super2_last_group(ext2_resize_t rfs, ext2fs_bloc
 	ENSURES(RET != 0 || !S.b_in_ss2run || (G.bit[BM_RESERVE] == 1 && G.bit[BM_NEW] == 1))
 	ENSURES(RET != 0 || S.b_in_ss2run || (G.bit[BM_RESERVE] == OLD(G.bit[BM_RESERVE]) && G.bit[BM_MOVE] == OLD(G.bit[BM_MOVE])))
 	ENSURES(G.bit[BM_RESERVE] >= OLD(G.bit[BM_RESERVE]) && G.bit[BM_MOVE] >= OLD(G.bit[BM_MOVE]))
+	ENSURES(G.bit[BM_NEW] <= 1 && G.bit[BM_RESERVE] <= 1 && G.bit[BM_MOVE] <= 1)
 	ENSURES(G.bit[BM_MOVE] == OLD(G.bit[BM_MOVE]) || (S.b_in_ss2run && MOVE_IF_FILE))
 	ASSIGNS(G.n_rsv_ss2, G.rsv_failed, G.bit[BM_RESERVE], G.bit[BM_NEW], G.bit[BM_MOVE], G.loc[0][T_BB], G.loc[0][T_IB], G.loc[0][T_IT], rfs->needed_blocks);
 
@@ -179,6 +232,7 @@ static void mark_fs_metablock(ext2_resize_t rfs, ext2fs_block_bitmap meta_bmap, 
 	ENSURES(blk != GI.b || (G.bit[BM_RESERVE] == 1 && G.bit[BM_NEW] == 1))
 	ENSURES(blk == GI.b || (G.bit[BM_RESERVE] == OLD(G.bit[BM_RESERVE]) && G.bit[BM_NEW] == OLD(G.bit[BM_NEW]) && G.bit[BM_MOVE] == OLD(G.bit[BM_MOVE])))
 	ENSURES(G.bit[BM_MOVE] >= OLD(G.bit[BM_MOVE]) && (G.bit[BM_MOVE] == OLD(G.bit[BM_MOVE]) || MOVE_IF_FILE))
+	ENSURES(G.bit[BM_NEW] <= 1 && G.bit[BM_RESERVE] <= 1 && G.bit[BM_MOVE] <= 1)
 	ENSURES(G.mfm_hit_b == OLD(G.mfm_hit_b) + (blk == GI.b ? 1 : 0))
 	ASSIGNS(G.n_mfm, G.mfm_hit_b, G.bit[BM_RESERVE], G.bit[BM_NEW], G.bit[BM_MOVE], G.loc[0][T_BB], G.loc[0][T_IB], G.loc[0][T_IT], rfs->needed_blocks);
 
@@ -201,10 +255,6 @@ errcode_t ext2fs_allocate_block_bitmap(ext2_filsys fs, const char *descr, ext2fs
 int ext2fs_bg_has_super(ext2_filsys fs, dgrp_t group)
 {
 	struct ext2_super_block *sb = fs->super;
-#ifdef RSZ_DBG
-	if (fs == rsz_new_fs) REACH("dbg_has_super_new");
-	if (fs == rsz_new_fs && G.n_rsv_ss2 == 1) REACH("dbg_has_super_new_rsv1");
-#endif
 	return spec_bg_has_super(group, sb->s_feature_compat, sb->s_feature_ro_compat, sb->s_backup_bgs[0], sb->s_backup_bgs[1]);
 }
 
@@ -318,7 +368,9 @@ static void run(void)
 		CHECK(G.bit[BM_MOVE] == 0 || MOVE_IF_FILE, "only blocks a file uses (old map, not old metadata) are queued for moving");
 		if (same_desc_area) {
 			CHECK(G.n_mfm == 0 && G.n_agt_rsv == 0, "O6: unchanged descriptor area: nothing is claimed or re-allocated after the reservation");
+#if SCEN == 1
 			REACH("same_desc_area");
+#endif
 		}
 		if (BEYOND(IN.b) && !B_SKIPPED) {
 			CHECK(G.bit[BM_RESERVE] == 1, "B1: a block behind the new end is reserved");
@@ -328,9 +380,15 @@ static void run(void)
 		}
 		if (BEYOND(IN.b) && B_SKIPPED) REACH("beyond_uninit_group");
 		if (G.n_agt_map) REACH("shrink_realloc");
+#if SCEN == 3
 		if (G.n_mfm) REACH("desc_grow");
 		if (G.n_agt_rsv) REACH("desc_grow_realloc");
+		if (EXT2_DESC_SIZE(&OSB) == 32) REACH("desc_size_change");
+#endif
+#if SCEN == 2
 		if (!same_desc_area && old_blocks > new_blocks && EXT2_DESC_SIZE(&OSB) == 64) REACH("desc_shrink");
+		CHECK(G.n_mfm == 0 && G.n_agt_rsv == 0, "fewer descriptor blocks: blocks are only released, nothing is claimed or re-allocated");
+#endif
 		if (S.b_in_ss2run) REACH("ss2_run");
 		REACH("success");
 	} else {
